@@ -55,7 +55,10 @@ def st_case(draw):
            "num_samples": draw(st.integers(7, 14)),
            # user-set bounds on the contact point, in measured units, relative to the generating contact point
            # (fractions of the depth); the optimum lies inside them
-           "cp_bounds": draw(st.sampled_from([None, None, [0.3, 0.3], [0.08, 0.5], [1.5, 0.1]]))}
+           "cp_bounds": draw(st.sampled_from([None, None, [0.3, 0.3], [0.08, 0.5], [1.5, 0.1]])),
+           # contact point held fixed at the generating value / constrained by a two-term expression in the modulus
+           # that holds at the generating parameters
+           "cp_mode": draw(st.sampled_from(["free", "free", "free", "fixed", "expr"]))}
     cp = curve["params"]["contact_point"]
     if rt == "absolute":
         lo = cp - depth * draw(st.floats(0.3, 1.2))
@@ -80,7 +83,14 @@ def do_fit(case, k):
     idnt = fitgen.prep_curve(curve)
     p = POWER[curve["model"]]
     pi = fitgen.initial_from_truth(curve, e_factor=cfg["e_factor"] * k ** -p, cp_off=cfg["cp_off"])
-    if cfg.get("cp_bounds"):
+    cpt0 = curve["params"]["contact_point"]
+    if cfg.get("cp_mode") == "fixed":
+        pi["contact_point"].set(value=cpt0, vary=False)
+    elif cfg.get("cp_mode") == "expr" and cpt0 != 0:
+        # cp = a + b*E holds at the truth; for the k-run the modulus parameter is E*k^-p, hence b*k^p
+        a, b = 0.7 * cpt0, 0.3 * cpt0 / curve["params"]["E"]
+        pi["contact_point"].set(expr="%r + %r*E" % (a, b * k ** p))
+    if cfg.get("cp_bounds") and cfg.get("cp_mode", "free") == "free":
         cpt = curve["params"]["contact_point"]
         pi["contact_point"].set(min=cpt - cfg["cp_bounds"][0] * curve["depth"], max=cpt + cfg["cp_bounds"][1] * curve["depth"])
     cp_init = pi["contact_point"].value
@@ -104,7 +114,7 @@ def check_case(case, ctx):
     nontrivial = not (0.99 <= k <= 1.01) and (multi or abs(curve["params"]["contact_point"] + cfg["cp_off"] * curve["depth"]) > 0)
     ctx.note_case(case, nontrivial=nontrivial,
                   classes=[curve["model"], cfg["range_type"], "noisy" if curve["noise"] else "noise_free",
-                           "cp_bounded" if cfg.get("cp_bounds") else "cp_unbounded",
+                           "cp_bounded" if cfg.get("cp_bounds") else "cp_unbounded", "cp_" + cfg.get("cp_mode", "free"),
                            f"segment{cfg['segment']}"])
     desc = {"range_type": cfg["range_type"]}
     with ctx.no_raise("fit-raises", dict(desc, k="1")):
@@ -116,6 +126,8 @@ def check_case(case, ctx):
               f"success k=1: {f1.get('success')}, k={k}: {fk.get('success')}")
     # the caller's initial contact point is interpreted in measured units in every pass
     for n, call in enumerate(reck.calls):
+        if cfg.get("cp_mode") == "expr":
+            break       # the optimiser receives the (rescaled) expression, not a number set by the caller
         got = call["params"]["contact_point"][0]
         ctx.check(abs(got - cpik * k) <= 1e-12 * max(abs(cpik * k), 1e-300) + 1e-300,
                   "initial-cp-not-in-measured-units", desc,
